@@ -576,6 +576,7 @@ public:
     if (fd->getTemplatedKind() != FunctionDecl::TK_NonTemplate) o["tk"] = (int)fd->getTemplatedKind();
     const auto *ept = fd->getType()->getAs<FunctionProtoType>();
     if (ept && ept->isNothrow()) o["noexcept"] = true;
+    if (fd->isDefaulted()) o["defaulted"] = true;
     json::Array params;
     for (const ParmVarDecl *p : fd->parameters()) {
       json::Object po;
